@@ -290,7 +290,7 @@ def wrapped(world):
         shutil.copyfile = real["copyfile"]
 
 
-LIVE_SCENARIOS = ["existing-then-live", "late-root", "root-replaced"]
+LIVE_SCENARIOS = ["existing-then-live", "late-root", "root-replaced", "backlog-and-live"]
 
 
 def run_live(case):
@@ -306,7 +306,7 @@ def run_live(case):
     cfg = rf_cfg(0)
     with rfharness.scratch("c17l") as base:
         stage = os.path.join(base, "stage")
-        ops = [{"op": "w", "idx": 0, "len": 270}, {"op": "w", "idx": 310, "len": 220}]
+        ops = [{"op": "w", "idx": 0, "len": 270}, {"op": "w", "idx": 310, "len": 220 if case["live"] != "backlog-and-live" else 1300}]
         with rfharness.quiet_fds():
             rfharness.run_python(cfg, ops, os.path.join(stage, "ch0"))
             os.makedirs(os.path.join(stage, "ch0", "metadata"), exist_ok=True)
@@ -330,13 +330,40 @@ def run_live(case):
                 shutil.copyfile(staged[rel], os.path.join(root, rel))
 
         expected = set(rf + other)
-        if case["live"] != "late-root":
+        if case["live"] == "backlog-and-live":
+            # a backlog in two subdirectories is handled by start() in one thread WHILE the observer thread delivers files
+            # that are being published into the newer subdirectory; the harness widens every hand-over by letting the path
+            # arithmetic of both threads take 15 ms (it cannot schedule the threads, but it can slow them down)
+            subs = sorted({os.path.dirname(r) for r in rf})
+            late = [r for r in rf if os.path.dirname(r) == subs[-1]][1::2]
+            for rel in other + [r for r in rf if r not in late]:
+                put(rel, src)
+        elif case["live"] != "late-root":
             for rel in other + rf[:2]:
                 put(rel, src)
         out = io.StringIO()
         with contextlib.redirect_stdout(out):
             mir = mirror.DigitalRFMirror(src, dest, method=case["method"], verbose=bool(case.get("verbose")))
-            mir.start()
+            if case["live"] == "backlog-and-live":
+                real_relpath = os.path.relpath
+
+                def slow_relpath(path, start=None):
+                    time_sleep(0.015)
+                    return real_relpath(path, start) if start is not None else real_relpath(path)
+
+                os.path.relpath = slow_relpath
+                try:
+                    th = threading.Thread(target=mir.start)
+                    th.start()
+                    for rel in late:
+                        put(rel, src)
+                        time_sleep(0.01)
+                    th.join(60)
+                    time_sleep(0.5)
+                finally:
+                    os.path.relpath = real_relpath
+            else:
+                mir.start()
         try:
             with contextlib.redirect_stdout(out):
                 if case["live"] == "existing-then-live":
